@@ -320,7 +320,7 @@ func TestC20(t *testing.T) {
 		}
 		done++
 		res := results[i]
-		r.Case(cell, c.n.it != nil, "position="+c.pos, "outcome="+res.Info)
+		r.Case(cell, c.n.it != nil, "cells position="+c.pos, "cells outcome="+res.Info)
 		if i%83 == 0 {
 			r.Sample(cell, map[string]interface{}{"helper": c.h.name, "nil": c.n.name, "position": c.pos, "outcome": res.Info})
 		}
